@@ -6,6 +6,7 @@ open TlxVerif TlxVerif.C10
 /-- scenario under construction + the resolved schedule of the last run -/
 structure St where
   nworkers : Nat := 0
+  initYields : Nat := 0
   jobs : List (Nat × List Act) := []
   clients : List (List Act) := []
   mainCalls : List Act := []
@@ -16,13 +17,16 @@ def parseCode (s : String) : Option Nat :=
 
 def parseAct (inJob : Bool) (tok : String) : Option Act :=
   if tok = "t" then some .term
+  else if tok = "d" then some .obsDone
+  else if tok = "i" then some .obsIdle
+  else if inJob && tok = "x" then some .throw
   else if !inJob && tok = "w" then some .lue
   else if !inJob && tok = "u" then some .lut
   else if tok.startsWith "e" then (parseCode (tok.drop 1).toString).map .enq
   else none
 
 def cfgOf (s : St) : Cfg :=
-  { nworkers := s.nworkers,
+  { nworkers := s.nworkers, initYields := s.initYields,
     prog := fun code => ((s.jobs.reverse.find? (·.1 == code)).map (·.2)).getD [],
     clients := s.clients, mainCalls := s.mainCalls }
 
@@ -36,7 +40,7 @@ def doRun (s : St) (ts : List String) : St × String :=
     let cfg := cfgOf s
     let r := Sched.run (lts cfg) p (init cfg)
     let runs := (List.range r.st.nextId).map (countOcc r.st.started)
-    let summary := s!"end={r.fin.show} jobs={r.st.nextId} runs={Drv.showCsv runs} done={r.st.done} steps={r.steps} |{Sched.showTrace r.trace}"
+    let summary := s!"end={r.fin.show} jobs={r.st.nextId} runs={Drv.showCsv runs} done={r.st.done} thrown={r.st.thrown.length} steps={r.steps} |{Sched.showTrace r.trace}"
     ({ s with lastResolved := r.resolved }, summary)
 
 def doExplore (s : St) (ts : List String) : St × String :=
@@ -53,8 +57,13 @@ def step (s : St) (ts : List String) : St × String :=
   match ts with
   | ["pool", n] =>
     match (if n.length ≤ 2 ∧ n.all Char.isDigit then n.toNat? else none) with
-    | some k => if 1 ≤ k ∧ k ≤ 8 then ({ s with nworkers := k }, "ok") else (s, "bad-op")
+    | some k => if 1 ≤ k ∧ k ≤ 8 then ({ s with nworkers := k, initYields := 0 }, "ok") else (s, "bad-op")
     | none => (s, "bad-op")
+  | ["pool", n, ini] =>
+    match (if n.length ≤ 2 ∧ n.all Char.isDigit then n.toNat? else none), Sched.keyNat "init" ini with
+    | some k, some y =>
+      if 1 ≤ k ∧ k ≤ 8 ∧ y ≤ 8 then ({ s with nworkers := k, initYields := y }, "ok") else (s, "bad-op")
+    | _, _ => (s, "bad-op")
   | "job" :: code :: acts =>
     match parseCode code, acts.mapM (parseAct true) with
     | some c, some body => ({ s with jobs := s.jobs ++ [(c, body)] }, "ok")
